@@ -321,6 +321,23 @@ func checkFlow(p flowParams, x *verifkit.Exec) []verifkit.Violation {
 			}
 		}
 	}
+	// ---- C06, system shutdown: StopAll (graceful, with a reason) followed by Wait ----
+	if a.healthy && p.Stop == "stopall" && !x.StepCapHit {
+		for _, c := range x.Controls {
+			if c.Name == "stopall" && c.Issued() && !c.ReturnedInTime() {
+				a.bad("C06/stop-never-returns", "the graceful shutdown (StopAll + Wait) never returned although every plugin and the store answered (wedged)")
+			}
+		}
+		for _, e := range a.evs {
+			if e.Comp == "ctl" && e.Kind == "waitall.ret" {
+				if e.Arg == "nil" {
+					a.checkDrained("StopAll + Wait returned nil", e.Seq, epoch, emitted, acked, destRecv, destDone, dlqRecvRun, dlqOK, srcAckSeq, teardownSeq, lastPos, lastPosSeen, opens, teardowns)
+				} else {
+					a.bad("C06/stop-and-wait-error", "the graceful shutdown of a healthy pipeline failed: %s", e.Arg)
+				}
+			}
+		}
+	}
 	// ---- C12: force stop ----
 	if p.Stop == "force" && forceRet >= 0 {
 		waited := false
